@@ -35,6 +35,8 @@ def workloads(rng, tier):
     # senders that close right after their last send: whatever still reaches the peer is undamaged (repaired use-after-free)
     for zc in ("", ",zc=1"):
         out.append(["!fanin rcvhwm=5000/uring=1,sndhwm=2000,linger=60000%s 32 1000 8192 closeint" % zc])
+    for a, b in (("uring=1", "-"), ("-", "uring=1"), ("uring=1", "uring=1"), ("uring=1,ms=0", "uring=1,ms=0")):
+        out.append(["peerclose %s %s" % (a, b)])
     out.append(["slowdrip type=PULL,hsivl=600,uring=1 300 hff00000000000000017f03"])   # known finding: no handshake deadline
     return out
 
@@ -79,12 +81,91 @@ def gen_pool(rng, tier):
     return [pool_case(rng) for _ in range(400 if tier == "quick" else 20000)]
 
 
+def trk_case(rng):
+    """a history of the worker's table of in-kernel operations: submissions on a few descriptors, CloseFd completions, first
+    and final completions of what the kernel holds (and a few completions it never posted).  The expected line of every
+    completion - the operation it was submitted as - is computed here and kept in the op as a comment-free suffix-less list."""
+    ops = ["trk new"]
+    slab, free, kernel = [], [], []          # kernel: [key, fd, kind, awaiting_notification]
+    for _ in range(rng.randrange(6, 60)):
+        r = rng.random()
+        if r < 0.42 or not kernel:
+            fd = rng.randrange(3, 7)
+            kind = rng.choice(["send", "vec", "read", "mread", "cancel", "zc:%d" % rng.randrange(4), "lease:%d" % rng.randrange(4)])
+            if free:
+                key = free.pop(0)
+                slab[key] = True
+            else:
+                key = len(slab)
+                slab.append(True)
+            kernel.append([key, fd, kind, False])
+            ops.append("trk submit %d %s" % (fd, kind))
+        elif r < 0.55:
+            ops.append("trk closefd %d" % rng.randrange(3, 7))
+        elif r < 0.70:
+            cands = [k for k in kernel if k[2].startswith(("zc", "lease")) and not k[3]]
+            if cands:
+                k = rng.choice(cands)
+                k[3] = True           # the entry keeps its slot (and with it its user_data) until the notification
+                ops.append("trk notify %d" % k[0])
+        elif r < 0.95:
+            k = kernel.pop(rng.randrange(len(kernel)))
+            slab[k[0]] = False
+            free.insert(0, k[0])
+            ops.append("trk complete %d %d" % (k[0], 1 if k[3] else 0))
+        else:
+            ops.append("trk complete %d %d" % (rng.randrange(0, 40) + 100, rng.randrange(2)))     # nothing the kernel holds
+        if rng.random() < 0.15:
+            ops.append("trk state")
+    ops.append("trk state")
+    return ops
+
+
+def trk_oracle(case, impl):
+    """every completion must be processed with the entry of the operation it belongs to: same kind, same registered buffer, on
+    the descriptor it was submitted on (or -1 once that was closed); nothing is left in the table once the kernel holds nothing"""
+    kernel = {}     # (key, awaiting) -> (fd, kind)
+    closed_after = {}
+    for op, out in zip(case, impl):
+        p = op.split(" ")
+        if p[1] == "submit":
+            kernel[(int(out), False)] = (p[2], p[3])
+        elif p[1] == "notify":
+            key = int(p[2])
+            if (key, False) in kernel:
+                fd, kind = kernel.pop((key, False))
+                if not (out.startswith(kind + "@") and out.split("@")[1] in (fd, "-1")):
+                    return "key=trk-misattributed the first completion of %s@%s (key %d) was processed with the entry %s" % (kind, fd, key, out)
+                kernel[(key, True)] = (fd, "lease:" + kind.split(":")[1])
+        elif p[1] == "complete":
+            key, notif = int(p[2]), p[3] == "1"
+            if (key, notif) in kernel:
+                fd, kind = kernel.pop((key, notif))
+                want = kind if ":" in kind else kind + (":10b" if kind in ("send", "vec") else "")
+                if not (out.startswith(want + "@") and out.split("@")[1] in (fd, "-1")):
+                    return "key=trk-misattributed the completion of %s@%s (key %d%s) was processed with the entry %s" % (
+                        kind, fd, key, " notification" if notif else "", out)
+            elif out != "unknown":
+                return "key=trk-phantom a completion the kernel never posted (key %d) consumed the entry %s" % (key, out)
+    if not kernel and case[-1] == "trk state" and impl[-1] != "":
+        return "key=trk-leak the kernel holds nothing but the table still has: " + impl[-1]
+    return None
+
+
+def gen_trk(rng, tier):
+    return [trk_case(rng) for _ in range(300 if tier == "quick" else 12000)]
+
+
 def mk_components():
-    comps = [{"comp": "routing", "gen": gen_pool, "oracle": pool_oracle, "label": "send-buffer-pool",
+    comps = [{"comp": "routing", "gen": gen_trk, "oracle": trk_oracle, "label": "op-table",
+              "nontrivial": lambda c, i: any("@" in l for l in i), "dist": lambda cs: {"cases": len(cs), "ops": sum(len(c) for c in cs),
+                                                                                       "closefd": sum(1 for c in cs for o in c if "closefd" in o),
+                                                                                       "notify": sum(1 for c in cs for o in c if "notify" in o)}},
+             {"comp": "routing", "gen": gen_pool, "oracle": pool_oracle, "label": "send-buffer-pool",
               "nontrivial": lambda c, i: any(l.isdigit() for l in i), "dist": lambda cs: {"cases": len(cs), "ops": sum(len(c) for c in cs)}}]
     for name, env in URING_ENVS:
         comps.append({"comp": "stack", "gen": workloads, "label": "uring-" + name, "shrink": False, "env": env,
-                      "nontrivial": lambda c, i: any(l.startswith(("delivered=", "hwm=ok", "churn=ok", "fanin=ok", "fanin=intact")) for l in i),
+                      "nontrivial": lambda c, i: any(l.startswith(("delivered=", "hwm=ok", "churn=ok", "fanin=ok", "fanin=intact", "peerclose=seen")) for l in i),
                       "dist": lambda cs: {"cases": len(cs), "streams": sum(1 for c in cs if c[0].startswith("stream")),
                                           "hwm": sum(1 for c in cs if c[0].startswith("hwm")),
                                           "churn/fanin": sum(1 for c in cs if c[0].lstrip("!").startswith(("churn", "fanin")))}})
@@ -94,7 +175,7 @@ def mk_components():
 
 SPEC = {
     "components": mk_components(),
-    "search": lambda rng, tier: [("routing", gen_pool(rng, "quick"), pool_oracle)] +
+    "search": lambda rng, tier: [("routing", gen_trk(rng, "quick"), trk_oracle), ("routing", gen_pool(rng, "quick"), pool_oracle)] +
                                 [("stack", workloads(rng, "quick"), None, False, env) for _, env in URING_ENVS[:2]],
     "rule": "stack level: the C01 (streams incl. the carry-over shapes), C02 (multipart, receive styles, interfering peers) and C14 (HWM, "
             "SNDTIMEO/RCVTIMEO) workloads with IO_URING_SESSION_ENABLED on both sockets over tcp, with and without TCP_CORK, run against "
@@ -102,7 +183,9 @@ SPEC = {
             "zero-copy send; multishot receive off): the canonical result of every scenario must be what the model predicts, i.e. what the "
             "Tokio backend gives (C01/C02/C14 run the same generators there); connection churn (24..120 connect/send/close cycles plus "
             "half-open raw peers: every message arrives, descriptors return to the baseline) and fan-in; component level: random histories "
-            "of acquire / lease / hand-over / lease-drop / release on the real SendBufferPool in lock-step with the model",
+            "of acquire / lease / hand-over / lease-drop / release on the real SendBufferPool in lock-step with the model; random histories of "
+            "submit / CloseFd completion / first and final completions on the worker's real InternalOpTracker in lock-step with the model, "
+            "with the oracle that every completion is processed with the entry of the operation it was submitted as",
     "assumptions": ["the receive ring (provided buffers) and the worker's SQE/CQE bookkeeping are exercised by the scenarios, not modelled",
                     "equivalence of everything the engine decides rests on C04's theorem (segmentation and timing of reads are the only "
                     "inputs the backends can vary)"],
